@@ -479,8 +479,8 @@ func TestC10(t *testing.T) {
 			"instead, and every acknowledged result must match the model (as if no restart happened). distinct = (marshaler, kill point / failing call index); non-trivial = the kill landed with " +
 			"an operation in flight, or the rejected call was a write")
 		c.Assume("crash = process death (SIGKILL) with the page cache intact; power loss / torn sectors cannot be produced here")
-		c.Require("store_rejections_put", "store_rejections_destroy", "store_rejections_load", "kills", "kills_with_inflight_op", "restarts_checked", "acked_ops_checked", "fields_compared", "marshalers_used",
-			"kills_at_exact_store_call_beforePut", "kills_at_exact_store_call_afterPut")
+		c.Require("store_rejections_put", "store_rejections_destroy", "store_rejections_load", "kills", "kills_with_inflight_op", "restarts_checked", "acked_ops_checked", "fields_compared", "marshalers_used")
+		c.Want("kills_at_exact_store_call_beforePut", "kills_at_exact_store_call_afterPut", "kills_inside_bbolt_commit_pwrite64", "bbolt_internal_rejections", "restarts_with_concurrent_first_access")
 
 		dir, err := os.MkdirTemp("", "c10")
 		if err != nil {
